@@ -52,8 +52,9 @@ Inductive largs :=
 
 (* one class of the MRO walked by find_pickleable_exception (takewhile not in Exception/BaseException/object) *)
 Record mro := mkMro {
-  m_ok_json : bool;      (* supercls( *exc.args) constructs, json round-trips and is truthy *)
-  m_ok_pickle : bool;    (* supercls( *exc.args) constructs, pickle round-trips and is truthy *)
+  m_ok_json : bool;      (* supercls( *exc.args) constructs and json round-trips *)
+  m_ok_pickle : bool;    (* supercls( *exc.args) constructs and pickle round-trips (whatever its truth value: the
+                            candidate is tested with `is not None`) *)
   m_loaded : largs;      (* the args of the unpickled supercls( *exc.args), relative to exc.args (Python's own pickling) *)
   m_is_exc : bool        (* issubclass(supercls, BaseException) - false for a mixin in the MRO: skipped *)
 }.
@@ -100,7 +101,10 @@ Definition ensure (c : coder) (l : list arg) : list sarg :=
   map (fun a => if a_rt c a then SKeep a else SText (text_form a)) l.
 
 (* ---------------------------------------------------------------- prepare_exception *)
-(* What _prepare_exception returns.  PNone is Python's None: no link, or a link cut by the seen-set. *)
+(* What _prepare_exception returns.  PNone is Python's None: no link, or a link cut by the seen-set.
+   "No link" is `exc.__cause__ is None` / `exc.__context__ is None`: the truth value of an exception OBJECT (classes
+   defining __bool__ / __len__) plays no part anywhere - not here, not in get_pickleable_exception (`nearest is not
+   None`), not in the field serializer / __getstate__ / exception_to_python (`is None`).  Hence no flag for it. *)
 Inductive prep :=
 | PNone
 | PExc (id : nat)                                         (* the exception object itself *)
@@ -208,7 +212,7 @@ Definition construct (e : enc) (n : node) (k : lkind) (forms : list aform) : lki
 
 Fixpoint load_json (e : enc) (g : graph) (p : prep) : lres :=
   match p with
-  | PNone => LR LNone                                     (* falsy: no link *)
+  | PNone => LR LNone                                     (* None: no link *)
   | PRepr id a c x s =>
     match nth_error g id with
     | None => LBad
